@@ -67,7 +67,7 @@ def c13(ck):
                "the reader/evaluator builds) passed twice to the same builtin with different other arguments, from "
                "text: both results the model's, the value intact; distinct = distinct calls on which the oracle does "
                "not abstain")
-    consts = {"MaxAr": 2, "Pool3": 8 if ck.quick else 16, "Pure2": 4 if ck.quick else 10}
+    consts = {"MaxAr": 2, "Pool3": 8 if ck.quick else 16, "Pure2": 3 if ck.quick else 10}
     oracle_stepfiles(ck)
     gen_and_replay(ck, "GenC13", consts, timeout=1500)
     ck.exhaustive = True
